@@ -291,4 +291,6 @@ def run(chk, ctx):
     r6(chk, ctx)
     r7(chk, ctx)
     r8(chk, ctx)
+    from . import round3
+    round3.send_task_failure_error(chk, ctx)
     chk.assume("base64 round-trips; ':' does not occur in event ids (uuid4) or reply queue names")
